@@ -351,10 +351,16 @@ def run_property(pid, tier, seed):
                     broken.append({"stage": "proof", "theorem_file": pf, "what": p})
         if ctx.thorough and ok_build(broken) and getattr(mod, "PROP_FILES", []):
             # independent re-check of the compiled property files and everything they depend on
-            rc, out = sh(["timeout", "3000", "coqchk", "-silent", "-o", "-Q", THEORIES, "Hermes"] +
+            # COQCHK_ADMIT: library modules (and what they depend on) that coqchk takes as compiled by coqc instead of
+            # re-checking them (Coq-Interval's tactic stack alone takes > 50 min); recorded in the evidence
+            admit = []
+            for m in getattr(mod, "COQCHK_ADMIT", []):
+                admit += ["-admit", m]
+            rc, out = sh(["timeout", "3000", "coqchk", "-silent", "-o", "-Q", THEORIES, "Hermes"] + admit +
                          ["Hermes." + pf for pf in mod.PROP_FILES], cwd=COQ)
             summ = out[out.find("CONTEXT SUMMARY"):] if "CONTEXT SUMMARY" in out else out[-1500:]
-            ctx.extra["coqchk"] = {"exit": rc, "summary": " ".join(summ.split())[:3000]}
+            ctx.extra["coqchk"] = {"exit": rc, "summary": " ".join(summ.split())[:3000],
+                                   "admitted_library_modules": getattr(mod, "COQCHK_ADMIT", [])}
             if rc != 0:
                 broken.append({"stage": "coqchk", "what": out[-2000:]})
             ctx.log("coqchk: exit %d" % rc)
